@@ -99,31 +99,46 @@ def named_internal_tests(repo: Repo) -> set[str]:
 
 
 def build_model(repo: Repo) -> tuple[M.Interp, set[str], str]:
+    """Interprets the scan entry point and settles what "internal" means in the description.
+
+    `is_internal_module` (a name other modules import) is an atom INT[x] wherever it is called; its body, interpreted for a generic
+    name, defines INT in terms of whatever other tests on the same name occur in the pipeline (a class that answers the same
+    question, a helper it delegates to), so that both spellings are recognised as the same test.  Where the pipeline never calls
+    it, INT is defined by role: what alone decides, with externals excluded, which imports remain.
+    """
     entry, flag, ext = find_entry(repo)
     internal = named_internal_tests(repo)
-    how = "by name (is_internal_module)"
     it = M.Interp(repo, entry, flag, ext, internal)
     interpret(it)
-    if not internal or not it.int_calls:
-        # by role: with externals excluded exactly the imports accepted by one pure predicate of the importee remain
-        cand = None
+    how = "by name (is_internal_module)"
+    definition = None
+    for fq in sorted(internal):
+        d = it.formula_of_predicate(repo.funcs[fq])
+        if d is not None and d not in (TRUE, FALSE) and usable_definition(it, d):
+            definition = d
+    if not it.int_calls or not internal:
+        # by role: with externals excluded (and no patterns) exactly the imports accepted by a test on the importee remain
         for s in it.sinks:
             if isinstance(s.imports, M.Coll):
-                k = M.retention(s.imports, E, lambda b: True)
-                under = conj([k, atom("FLAG"), f_not(atom("HAS"))])
-                for a in sorted(atoms_of(k)):
-                    if a.startswith("P<") and a.endswith(f"[{E}]") or a.startswith("P<") and a.endswith("[x0]"):
-                        pa = atom(a)
-                        if M.valid(under, pa) and M.valid(conj([pa, atom("FLAG"), f_not(atom("HAS"))]), k):
-                            cand = a
-        if cand is not None:
-            fi = it.predicates.get(cand[: cand.index("[")])
-            if fi is not None:
-                internal = {fi.fq}
-                how = f"by role ({fi.qualname}: the predicate that alone decides which imports remain when externals are excluded)"
-                it = M.Interp(repo, entry, flag, ext, internal)
-                interpret(it)
+                k = M.retention(s.imports, "x0", lambda b: True)
+                psi = k
+                for a_ in sorted(atoms_of(k)):
+                    if a_ == "FLAG":
+                        psi = M.subst_atom(psi, a_, TRUE)
+                    elif a_ == "HAS" or "EXCL[" in a_ or (it.taint_of_atom(a_) & {"EXT"} and a_.startswith("ISNONE[")):
+                        psi = M.subst_atom(psi, a_, FALSE)
+                if psi not in (TRUE, FALSE) and usable_definition(it, psi) and (definition is None or not (atoms_of(definition) & atoms_of(k))):
+                    definition = psi
+                    fns = sorted({it.predicates[a_[: a_.index("[")]].qualname for a_ in atoms_of(psi) if a_.startswith("P<") and a_[: a_.index("[")] in it.predicates})
+                    how = f"by role (`{show(psi)}` alone decides which imports remain when externals are excluded" + (f"; predicates: {', '.join(fns)})" if fns else ")")
+                    internal = internal | {it.predicates[a_[: a_.index("[")]].fq for a_ in atoms_of(psi) if a_.startswith("P<") and a_[: a_.index("[")] in it.predicates}
+    it.int_def = definition
     return it, internal, how
+
+
+def usable_definition(it: M.Interp, d: Formula) -> bool:
+    """Only tests on the generic name itself, none of them depending on the external options."""
+    return all(M.mentions(a, "x0") and not it.taint_of_atom(a) and not a.startswith(("INT[", "INSCAN[", "EXCL[")) for a in atoms_of(d))
 
 
 def interpret(it: M.Interp) -> None:
@@ -152,10 +167,21 @@ def e_atoms(it: M.Interp, f: Formula) -> set[str]:
     return {a for a in atoms_of(f) if it.taint_of_atom(a) & {"FLAG", "EXT"}}
 
 
-def constraints(atoms: set[str]) -> Formula:
+def constraints(it: M.Interp, atoms: set[str]) -> Formula:
     """What is known about the atoms: patterns are rejected together with FLAG by the public entry point (C13.R2); a pattern can
-    only match when there is one; a matching generic ancestor is a matching ancestor."""
+    only match when there is one; a matching generic ancestor is a matching ancestor; no patterns when the option is None; what the
+    internal test means when it is spelled out somewhere (its definition in terms of the other atoms about the same name)."""
     cs = [f_not(conj([atom("FLAG"), atom("HAS")]))]
+    for p in sorted(it.ext_params):
+        if f"ISNONE[{p}]" in atoms:
+            cs.append(disj([f_not(atom(f"ISNONE[{p}]")), f_not(atom("HAS"))]))
+    if it.int_def is not None:
+        for k in (E, f"anc:{E}"):
+            d = rename_sym(it.int_def, "x0", k)
+            if f"INT[{k}]" in atoms or atoms_of(d) & atoms:
+                i = atom(f"INT[{k}]")
+                cs.append(disj([f_not(i), d]))
+                cs.append(disj([i, f_not(d)]))
     for a in sorted(atoms):
         if "EXCL[" in a or "EXCL(" in a:
             cs.append(disj([f_not(atom(a)), atom("HAS")]))
@@ -174,7 +200,10 @@ def depends_on_options(it: M.Interp, k: Formula, assume: dict[str, bool]) -> "di
     rest = sorted(names_ - set(ea) - set(assume))
     if not ea:
         return None
-    cons = constraints(names_ | {"FLAG", "HAS"})
+    cons = constraints(it, names_ | {"FLAG", "HAS"})
+    names_ = names_ | atoms_of(cons)
+    ea = sorted(a for a in names_ if it.taint_of_atom(a) & {"FLAG", "EXT"} and a not in assume)
+    rest = sorted(names_ - set(ea) - set(assume))
     all_e = sorted(set(ea) | {a for a in atoms_of(cons) if a not in rest and a not in assume})
     for env_r in M.assignments(rest):
         seen: dict[bool, dict] = {}
@@ -195,7 +224,7 @@ def tri(it: M.Interp, premise: Formula, conclusion: Formula) -> tuple[str, "dict
     Violated: some assignment of the canonical atoms and of the element-dependent facts refutes it whatever the values of the free
     atoms about the configuration (and of unrecognised tests on the name, which might be a second spelling of the internal test)."""
     names_ = atoms_of(premise) | atoms_of(conclusion)
-    cons = constraints(names_ | {"FLAG", "HAS"})
+    cons = constraints(it, names_ | {"FLAG", "HAS"})
     names_ |= atoms_of(cons)
     if M.valid(premise, conclusion, cons):
         return "ok", None
@@ -591,8 +620,8 @@ def run_r2(repo: Repo, res: Result, it: M.Interp, internal: set[str], how: str) 
     res.add("C10.R2", "fixture::engine/fixtures/name_ops.py", True, names.fixture_selfcheck(), nontrivial=False)
     res.analysed["functions_reachable_from_scan_entry"] = len(reach_fq)
     # the internal test exists and is what the pipeline uses
-    if not internal or not it.int_calls:
-        res.undecide("C10.R2", f"{it.entry.relpath}::{it.entry.qualname}::internal test", "no call of the internal-module test was met while interpreting the scan pipeline (neither `is_internal_module` nor a predicate in its role)", where(it.entry, it.entry.node))
+    if not it.int_calls and it.int_def is None:
+        res.undecide("C10.R2", f"{it.entry.relpath}::{it.entry.qualname}::internal test", "no internal-module test was met while interpreting the scan pipeline (neither a call of `is_internal_module` nor a test on the importee in its role)", where(it.entry, it.entry.node))
         return
     fns = internal_closure(repo, internal)
     res.observe(f"C10.R2 internal test found {how}; closure: {sorted(f.qualname for f in fns)}")
